@@ -652,6 +652,8 @@ func build(v Vec, st *PreState) (cl *call, err error) {
 			req.Messages = []*pubsubpb.PubsubMessage{{}}
 		case "many":
 			req.Messages = []*pubsubpb.PubsubMessage{m(0), m(1), m(2)}
+		case "lastbad": // a batch whose LAST message is not acceptable: all or nothing
+			req.Messages = []*pubsubpb.PubsubMessage{m(0), m(1), {Data: []byte("this is not json")}}
 		default:
 			panic("messages class")
 		}
